@@ -13,7 +13,7 @@ uqueue part
     violation (DESIGN.md 2.2).
 udeal part: see run_udeal().
 """
-import json
+import json, re
 import vlib
 
 LEVEL = "model_checking"
@@ -74,6 +74,43 @@ def signature(h, line):
     return {"PushRet": "occupancy", "PopRet": "invention-or-duplicate"}.get(ev.get("e"), ev.get("e", "?"))
 
 
+def protocol_left(ctx, hists, tag="uqdet"):
+    """Which of the executions (macro granularity: Step events) leave the detailed model spec/Uqueue.tla, i.e. the
+    wake-up protocol as transcribed from uqueue.h?  One TLC run of UqueueDet_Trace per queue configuration.
+    Returns {index in hists: description of the first step outside the protocol}; executions without a step
+    record (fine granularity) are not classified (absent from the result, listed in the second value)."""
+    import os
+    groups, unclassified = {}, []
+    for k, h in enumerate(hists):
+        r0 = h[0]
+        steps = [e for e in h if e["e"] == "Step"]
+        if r0.get("gran") != "macro" or not steps:
+            unclassified.append(k)
+            continue
+        cfgk = (r0["L"], tuple(r0["npush"]), r0["ncons"], r0["drain"])
+        groups.setdefault(cfgk, []).append((k, r0, steps))
+    out = {}
+    for gi, (cfgk, items) in enumerate(sorted(groups.items())):
+        path = os.path.join(ctx.build, "%s_%d.ndjson" % (tag, gi))
+        lines = []
+        for k, r0, steps in items:
+            lines.append({"e": "Reset", "hid": k, "L": r0["L"], "npush": r0["npush"], "ncons": r0["ncons"], "drain": r0["drain"]})
+            lines += steps
+        vlib.write_ndjson(path, lines)
+        res = ctx.tlc("UqueueDet_Trace", "UqueueDet_Trace.cfg", workers=1, env={"TRACE": path}, count=False, timeout=600)
+        if "DET_CONSUMED" not in res.out:
+            raise vlib.ToolError("UqueueDet_Trace did not consume its trace\n" + res.out[-1500:])
+        m = re.search(r'"DET_LEFT",\s*\{(.*?)\}\s*>>', res.out, re.S)
+        if not m:
+            raise vlib.ToolError("UqueueDet_Trace: no DET_LEFT report\n" + res.out[-1500:])
+        steps_of = {k: st for k, _, st in items}
+        for a_, b_ in re.findall(r"<<(-?\d+), (\d+)>>", m.group(1)):
+            k, d = int(a_), int(b_)
+            st = steps_of[k][d - 1] if 0 < d <= len(steps_of[k]) else {}
+            out[k] = "step %d (thread %s: %s)" % (d, st.get("t"), st.get("k"))
+    return out, unclassified
+
+
 def run_uqueue(ctx):
     binp = ctx.cc("sched_uqueue", ["sched_uqueue.c", "vsched.c"])
     pool = []
@@ -127,11 +164,26 @@ def run_uqueue(ctx):
     rej = ctx.validate_histories_1pass("Uqueue_Trace", "Uqueue_Trace.cfg", hists, tag="uq")
     ctx.extra["uqueue_traces_rejected"] = len(rej)
     seen_keys = set()
+    lw = [idx for idx, line, inv in rej
+          if signature(pool[idx][0], line) in ("producer-asleep-with-free-slot", "consumer-asleep-with-element")]
+    lp, uncl = protocol_left(ctx, [pool[idx][0] for idx in lw])
+    left_protocol = {lw[k]: v for k, v in lp.items()}
+    ctx.extra["uqueue_lost_wakeups_checked_against_the_detailed_model"] = len(lw) - len(uncl)
+    ctx.extra["uqueue_lost_wakeups_outside_the_recorded_protocol"] = len(left_protocol)
     for idx, line, inv in rej:
         h, source = pool[idx]
         r0 = h[0]
         npush = ",".join(str(x) for x in r0["npush"])
         key = "uqueue;%s;%s" % (shape(npush, r0["ncons"]), signature(h, line))
+        if key in seen_keys:
+            continue
+        # a lost wake-up is the RECORDED finding only if the execution follows, step by step, the wake-up
+        # protocol as transcribed in spec/Uqueue.tla (which loses it too); an execution that leaves the
+        # protocol is something else and gets a name of its own
+        if idx in left_protocol:
+            where = left_protocol[idx]
+            nm = re.sub(r"[^a-z0-9]+", "-", where.split(":")[-1].strip(" )"))
+            key = key + ";not-the-recorded-protocol;" + nm
         if key in seen_keys:
             continue
         seen_keys.add(key)
